@@ -103,7 +103,7 @@ class NetworkXGraphStorageDisjoint:
                     # graph already present, warn and exit
                     if self.log is not None:
                         self.log.warn('Attempting to insert a graph with the same GraphID, skipping')
-                    self.lock.release()
+                    # the lock is released in the finally clause
                     return
                 # relabel incoming graph nodes to integers, then add
                 temp_graph = nx.convert_node_labels_to_integers(graph, 1)
